@@ -24,6 +24,8 @@ void splinetable<Alloc>::permuteDimensions(const std::vector<size_t>& permutatio
 				throw std::runtime_error("Missing index in permutation passed to permuteDimensions");
 		}
 	}
+	if(ndim==0) //an empty table has nothing to permute (and no first dimension to hold the scratch extents)
+		return;
 	
 	//Note that we use regular pointers because these allocations will be 'local'
 	//to this function.
